@@ -167,6 +167,20 @@ def rule_pure(ctx):
            node=node0 or f.node, func=f)
 
 
+def rule_shapes(ctx):
+    """The identities hold for every state dimension n >= 1 and measurement dimension m >= 1.  A matrix product is defined for operands
+    of rank >= 1: np.squeeze of an operand turns a vector of length 1 into a 0-d array, `@` then raises for n = 1 (or m = 1)."""
+    ctx.rule("C17.shapes", "T1", "no operand of a matrix product is squeezed: dimension 1 stays a vector / a 1 x 1 matrix")
+    for rel, name in ((COMMON, "error_covariance_matrix"), (COMMON, "retrieval_gain_matrix"), (COMMON, "averaging_kernel_matrix"),
+                      (ERROR, "smoothing_error"), (ERROR, "retrieval_noise")):
+        f = ctx.func(rel, name)
+        sq = [str(norm(c_))[:50] for c_ in calls_in(f.node, ("squeeze", "item")) ]
+        sq += [str(norm(n_))[:50] for n_ in ast.walk(f.node) if isinstance(n_, ast.Subscript) and isinstance(n_.slice, ast.Constant) and n_.slice.value is Ellipsis and False]
+        ctx.ob("%s.rank_kept" % name, not sq, "rank-reducing calls: %s" % (sq or "none"),
+               "none: with np.squeeze a state (measurement) of dimension 1 becomes 0-dimensional and the product raises ValueError",
+               node=f.node, func=f, witness=None if not sq else {"n": 1, "raises": "ValueError: matmul: Input operand does not have enough dimensions"})
+
+
 def run(ctx):
     S = lambda K, Sa, Sy: spec_S(K, Sa, Sy)
     ctx.attempt(check, ctx, "C17.S", COMMON, "error_covariance_matrix", lambda K, Sa, Sy, m, n: [K, Sa, Sy],
@@ -189,6 +203,7 @@ def run(ctx):
         return [x, xa, A]
     ctx.attempt(check_smooth, ctx, args_smooth)
     ctx.attempt(rule_pure, ctx)
+    ctx.attempt(rule_shapes, ctx)
     from ..purity import rule_pure as rule_args
     ctx.attempt(rule_args, ctx, "C17.pure", [(COMMON, "error_covariance_matrix"), (COMMON, "retrieval_gain_matrix"), (COMMON, "averaging_kernel_matrix"),
                                              (ERROR, "smoothing_error"), (ERROR, "retrieval_noise")])
